@@ -94,9 +94,34 @@ fn fresh() -> [u8; OMAX] {
     [0; OMAX]
 }
 
+/// Unpredictability of fresh outputs.  Collision freedom alone lets the solver choose the value of
+/// a *new* transcript to be, say, the presented tag shifted by one byte (truncated / extended
+/// tokens).  A harness therefore announces the adversary's finished message (`forbid`) right before
+/// the operation under attack; from then on the first 16 bytes of the output of any transcript that
+/// was not queried before must differ from every 16-byte window of that message — which a random
+/// function satisfies except with negligible probability, and which is exactly "a fresh MAC /
+/// signature value does not happen to equal a tag the adversary could present".
+pub const FMAX: usize = 160;
+pub static mut FORBID: [u8; FMAX] = [0; FMAX];
+pub static mut FORBID_LEN: usize = 0;
+pub fn forbid(msg: &[u8]) {
+    unsafe {
+        if msg.len() <= FMAX {
+            FORBID[..msg.len()].copy_from_slice(msg);
+            FORBID_LEN = msg.len();
+        } else {
+            // long messages: the first and the last FMAX/2 bytes (tags sit at one of the two ends)
+            FORBID[..FMAX / 2].copy_from_slice(&msg[..FMAX / 2]);
+            FORBID[FMAX / 2..].copy_from_slice(&msg[msg.len() - FMAX / 2..]);
+            FORBID_LEN = FMAX;
+        }
+    }
+}
+
 #[inline(never)]
 pub fn oracle(dom: u8, t: &Transcript) -> [u8; OMAX] {
     let out = fresh();
+    let mut seen_before = false;
     unsafe {
         let n = NQ;
         let mut i = 0;
@@ -132,9 +157,25 @@ pub fn oracle(dom: u8, t: &Transcript) -> [u8; OMAX] {
                     kani::assume(!same_in || same_out);
                     kani::assume(same_in || !same_out16);
                 }
-                let _ = (same_out, same_out16, same_in);
+                seen_before |= same_in;
+                let _ = (same_out, same_out16);
             }
             i += 1;
+        }
+        let fl = FORBID_LEN;
+        if fl >= 16 {
+            let o0 = u64::from_le_bytes([out[0], out[1], out[2], out[3], out[4], out[5], out[6], out[7]]);
+            let o1 = u64::from_le_bytes([out[8], out[9], out[10], out[11], out[12], out[13], out[14], out[15]]);
+            let mut w = 0;
+            while w + 16 <= fl {
+                let f0 = u64::from_le_bytes([FORBID[w], FORBID[w + 1], FORBID[w + 2], FORBID[w + 3], FORBID[w + 4], FORBID[w + 5], FORBID[w + 6], FORBID[w + 7]]);
+                let f1 = u64::from_le_bytes([FORBID[w + 8], FORBID[w + 9], FORBID[w + 10], FORBID[w + 11], FORBID[w + 12], FORBID[w + 13], FORBID[w + 14], FORBID[w + 15]]);
+                let hit = o0 == f0 && o1 == f1;
+                #[cfg(kani)]
+                kani::assume(seen_before || !hit);
+                let _ = hit;
+                w += 1;
+            }
         }
         #[cfg(kani)]
         kani::assume(n < QMAX);
